@@ -311,9 +311,9 @@ PROPS["C11"] = {
                    "newer events, reopen and rebuild. Every store of a covered event must be refused as deleted, "
                    "events newer than every accepted deletion must not be, every covered event must be unretrievable "
                    "by every path after every step, and the deletion time reported for every address ever named is "
-                   "sampled after every step and must never decrease. Enumerated part: all 1,296 (thorough 7,776) sequences of four (five) operations out of store-a-version@1/2/3 and own-address-deletion@1/2/3 on a replaceable and a parameterised address run under the same oracles. Enumerated part: all 3,125 (thorough 15,625) sequences of five (six) operations out of store X / own deletion request naming X / another author's request naming X / remove_event(X) / unrelated store run under the same oracles."),
+                   "sampled after every step and must never decrease. Enumerated part: all 1,296 (thorough 7,776) sequences of four (five) operations out of store-a-version@1/2/3 and own-address-deletion@1/2/3 on a replaceable and a parameterised address run under the same oracles. Enumerated part: all 3,125 (thorough 15,625) sequences of five (six) operations out of store X / own deletion request naming X / another author's request naming X / remove_event(X) / unrelated store run under the same oracles. Leg `conc`: the own-author deletion-request scenarios of C14's catalogue (request vs store of its target, both orders; address request vs store at the address; request vs read of its target) with the first operation parked at every hit of every verif point: whenever the request was accepted, every event it covers must be unretrievable afterwards."),
     "level_note": DB_NOTE,
-    "legs": lambda tier: db_legs("c11", tier, parallel_thorough=6),
+    "legs": lambda tier: db_legs("c11", tier, parallel_thorough=6) + [leg("conc", "release", ["c11conc"], timeout=900)],
     "rule": hist_rule("profile delete", "at least one id or address marker exists at the end"),
     "assumptions": ["addresses are written canonically (kind:author:d, empty d for non-parameterised kinds); d <= 400 bytes for marker lookups"],
 }
